@@ -12,7 +12,7 @@ import (
 func init() {
 	register(&Spec{ID: "C01", Title: "Outgoing messages are well-formed TDS packet sequences", Run: runC01,
 		Meta: core.Meta{
-			Explanation: "Structural necessary conditions of well-formed packetisation; the numeric quantification (every length x packet size x call split) is not decided. R01.1 (E-OWN): the transport Conn.conn is referenced in exactly four roles — initialised in NewConn, closed in Conn.Close, reader argument of Packet.ReadFrom in Conn.ReadFrom, writer argument of Packet.WriteTo in sendPacket; any other use bypasses packetisation. R01.2: in sendPacket the write is dominated by Header.MsgType := CurrentHeaderType; the end-of-message flag is set exactly on the edge where len(packet.Data) differs from the LIVE Conn.PacketBodySize() (a call, not a cached value) by or-ing TDS_BUFSTAT_EOM into Header.Status before the write; the byte count returned by the write is compared with Header.Length. R01.3: NewPacket sets Header.Length = size and Data = make(size-8); the trim in sendPackets stores Header.Length = PacketHeaderSize + k and Data = Data[:k] for the same k (the tx queue's indexData). R01.4: in sendPackets the partial-packet test is `i == indexPacket && indexData < PacketBodySize()` with a strict comparison against the live body size; the early `return nil` lies on its onlyFull edge, the trim on the other; the deferred DiscardUntilCurrentPosition runs on every exit. R01.5: SendRemainingPackets calls sendPackets(ctx, false) under the closed protocol and resets the channel on every exit (C03 R03.4). R01.6: the flush reaches its success return only through at least one sendPacket call (path-insensitive on the loop). R01.7: Packet.WriteTo hands the whole serialised packet (packet.Bytes()) to the transport in exactly one Write call on every path — all channels share the transport without a send lock, so one Write per packet is what keeps packets of different channels from interleaving. R01.8: the tx side (header type, tx queue, lastPkgTx) is restored on every exit of SendRemainingPackets, also when the flush fails.",
+			Explanation: "Structural necessary conditions of well-formed packetisation; the numeric quantification (every length x packet size x call split) is not decided. R01.1 (E-OWN): the transport Conn.conn is referenced in exactly four roles — initialised in NewConn, closed in Conn.Close, reader argument of Packet.ReadFrom in Conn.ReadFrom, writer argument of Packet.WriteTo in sendPacket; any other use bypasses packetisation. R01.2: in sendPacket the write is dominated by Header.MsgType := CurrentHeaderType; the end-of-message flag is set exactly on the edge where len(packet.Data) differs from the LIVE Conn.PacketBodySize() (a call, not a cached value) by or-ing TDS_BUFSTAT_EOM into Header.Status before the write; the byte count returned by the write is compared with Header.Length. R01.3: NewPacket sets Header.Length = size and Data = make(size-8); the trim in sendPackets stores Header.Length = PacketHeaderSize + k and Data = Data[:k] for the same k (the tx queue's indexData). R01.4: in sendPackets the partial-packet test is `i == indexPacket && indexData < PacketBodySize()` with a strict comparison against the live body size; the early `return nil` lies on its onlyFull edge, the trim on the other; the deferred DiscardUntilCurrentPosition runs on every exit. R01.5: SendRemainingPackets calls sendPackets(ctx, false) under the closed protocol and resets the channel on every exit (C03 R03.4). R01.6: the flush reaches its success return only through at least one sendPacket call (path-insensitive on the loop). R01.7: Packet.WriteTo hands the whole serialised packet (packet.Bytes()) to the transport in exactly one Write call on every path — all channels share the transport without a send lock, so one Write per packet is what keeps packets of different channels from interleaving. R01.8: the tx side (header type, tx queue, lastPkgTx) is restored on every exit of SendRemainingPackets, also when the flush fails. R01.9: sendPackets/sendPacket decide 'full' and 'last' with Conn.PacketBodySize() while the tx queue sizes new packets with its packetSize function; both must be the one negotiated size: (*Conn).PacketSize returns Conn.packetSize itself on every path, PacketBodySize returns that value minus PacketHeaderSize, every value stored into Channel.queueTx is NewPacketQueue(<conn>.PacketSize) (the bound method of the channel's connection, or a function literal that only returns that call), and PacketQueue.packetSize is assigned only by NewPacketQueue from its parameter.",
 			NotDecided:  "Byte-exact concatenation of bodies, 'every packet but the last is full' as arithmetic and packet-size changes between messages are not decided.",
 			Assumptions: []string{"Packet.WriteTo serialises header then data (C15 / packet.go)", "channel id and packet number stamping is C12's R12.3"},
 		}})
@@ -28,6 +28,8 @@ func runC01(r *core.Run) {
 	r.Rule("R01.6", "a flush sends at least one packet (the one that carries EOM)", 1, false)
 	r.Rule("R01.7", "a packet reaches the transport in one Write call (header and body cannot be torn apart by another channel)", 1, false)
 	r.Rule("R01.8", "the tx side is reset on every exit of a flush (nothing is left behind for the next message)", 2, false)
+	r.Rule("R01.9", "one packet size in force: the size that sizes new tx packets and the body size the send path reasons with are the same field", 4, false)
+	defer c01OneSize(r)
 
 	fConn := p.Field("tds", "Conn", "conn")
 	roles := map[string]string{
@@ -106,7 +108,7 @@ func runC01(r *core.Run) {
 	c01SendPacket(r)
 	c01Coupling(r)
 	c01SendPackets(r)
-	c01SingleWrite(r)
+	c01SingleWrite(r, "R01.7")
 	c03Reset(r, "R01.8")
 }
 
@@ -495,12 +497,12 @@ func c01SendPackets(r *core.Run) {
 // transport in exactly one Write call on every path. All channels of a
 // connection share the transport without a send lock; one Write per packet
 // is what keeps packets of different channels from interleaving.
-func c01SingleWrite(r *core.Run) {
+func c01SingleWrite(r *core.Run, rule string) {
 	p := r.Prog
 	fn := p.Func("tds", "Packet", "WriteTo")
 	bytesFn := p.Func("tds", "Packet", "Bytes")
 	if len(fn.Params) != 2 {
-		r.Unknown("R01.7", "Packet.WriteTo: one Write per packet", fn.Pos(), "unexpected signature")
+		r.Unknown(rule, "Packet.WriteTo: one Write per packet", fn.Pos(), "unexpected signature")
 		return
 	}
 	w := fn.Params[1]
@@ -557,5 +559,111 @@ func c01SingleWrite(r *core.Run) {
 	if nsucc == 0 {
 		ok, why = false, "no path writes the packet"
 	}
-	r.Check(ok, "R01.7", "Packet.WriteTo: one Write per packet", fn.Pos(), "writer.Write(packet.Bytes()) exactly once", why)
+	r.Check(ok, rule, "Packet.WriteTo: one Write per packet", fn.Pos(), "writer.Write(packet.Bytes()) exactly once", why)
+}
+
+// c01OneSize: R01.9.
+func c01OneSize(r *core.Run) {
+	p := r.Prog
+	fPS := p.Field("tds", "Conn", "packetSize")
+	fQTx := p.Field("tds", "Channel", "queueTx")
+	fQPS := p.Field("tds", "PacketQueue", "packetSize")
+	psFn := p.Func("tds", "Conn", "PacketSize")
+	bodyFn := p.Func("tds", "Conn", "PacketBodySize")
+	npq := p.Func("tds", "", "NewPacketQueue")
+	hdr := p.ConstInt("tds", "PacketHeaderSize")
+
+	// the negotiated size as seen from a method of *Conn: the field itself, an atomic load of it, or PacketSize()
+	isSize := func(fn *ssa.Function, v ssa.Value, allowCall bool) bool {
+		v = core.Strip(v)
+		if f, base := core.FieldLoad(v); f == fPS && base == ssa.Value(fn.Params[0]) {
+			return true
+		}
+		if c, ok := v.(*ssa.Call); ok {
+			if allowCall && core.StaticCallee(c) == psFn && len(c.Call.Args) == 1 && c.Call.Args[0] == ssa.Value(fn.Params[0]) {
+				return true
+			}
+			if f := core.StaticCallee(c); f != nil && f.Pkg != nil && f.Pkg.Pkg.Path() == "sync/atomic" && len(f.Name()) >= 4 && f.Name()[:4] == "Load" && len(c.Call.Args) > 0 {
+				if fa, ok := c.Call.Args[0].(*ssa.FieldAddr); ok && core.FieldOfAddr(fa) == fPS && fa.X == ssa.Value(fn.Params[0]) {
+					return true
+				}
+			}
+		}
+		return false
+	}
+	okPS := len(core.Returns(psFn)) > 0
+	for _, ret := range core.Returns(psFn) {
+		if !isSize(psFn, core.RetVals(ret)[0], false) {
+			okPS = false
+		}
+	}
+	r.Check(okPS, "R01.9", "(*Conn).PacketSize returns Conn.packetSize", psFn.Pos(), "every return is the field itself",
+		"PacketSize() can return something other than the negotiated Conn.packetSize: new tx packets are sized differently from the body size sendPackets/sendPacket reason with (short packets flagged EOM, or packets longer than the size in force)")
+	okBody := len(core.Returns(bodyFn)) > 0
+	for _, ret := range core.Returns(bodyFn) {
+		bo, ok := core.Strip(core.RetVals(ret)[0]).(*ssa.BinOp)
+		c, isC := int64(0), false
+		if ok {
+			c, isC = core.ConstInt64(bo.Y)
+		}
+		if !ok || bo.Op != token.SUB || !isC || c != hdr || !isSize(bodyFn, bo.X, true) {
+			okBody = false
+		}
+	}
+	r.Check(okBody, "R01.9", "(*Conn).PacketBodySize returns Conn.packetSize - PacketHeaderSize", bodyFn.Pos(), "every return is the negotiated size minus the header size",
+		"PacketBodySize() is not the negotiated packet size minus the header size: 'full' and 'last packet' are judged against a different size than packets are built with")
+
+	// stores to Channel.queueTx and PacketQueue.packetSize
+	nTx := 0
+	for _, fn := range p.ModuleFuncs() {
+		for _, b := range fn.Blocks {
+			for _, in := range b.Instrs {
+				st, ok := in.(*ssa.Store)
+				if !ok {
+					continue
+				}
+				fa, ok := st.Addr.(*ssa.FieldAddr)
+				if !ok {
+					continue
+				}
+				switch core.FieldOfAddr(fa) {
+				case fQPS:
+					good := fn == npq && st.Val == ssa.Value(npq.Params[0])
+					r.Check(good, "R01.9", core.FuncName(fn)+": PacketQueue.packetSize assigned", st.Pos(), "NewPacketQueue stores its parameter", "a queue's packet size function is replaced outside NewPacketQueue (or by something other than its parameter)")
+				case fQTx:
+					nTx++
+					key := core.FuncName(fn) + ": Channel.queueTx assigned"
+					call, ok := st.Val.(*ssa.Call)
+					if !ok || core.StaticCallee(call) != npq {
+						r.Bad("R01.9", key, st.Pos(), "the tx queue is not built by NewPacketQueue")
+						continue
+					}
+					why := ""
+					mc, isMC := call.Call.Args[0].(*ssa.MakeClosure)
+					switch {
+					case !isMC:
+						why = "the size function is " + core.Expr(call.Call.Args[0]) + ", not the connection's PacketSize method"
+					case mc.Fn.(*ssa.Function).Object() == psFn.Object() && len(mc.Bindings) == 1:
+						// bound to a *Conn (which one is not compared: a captured receiver is re-loaded per use)
+					default:
+						// a function literal: every return is <conn>.PacketSize()
+						lit := mc.Fn.(*ssa.Function)
+						if len(core.Returns(lit)) == 0 {
+							why = "the size function never returns"
+						}
+						for _, ret := range core.Returns(lit) {
+							c, ok := core.Strip(core.RetVals(ret)[0]).(*ssa.Call)
+							if !ok || core.StaticCallee(c) != psFn {
+								why = "the size function of the tx queue returns " + core.Expr(core.RetVals(ret)[0]) + " on some path, not the connection's PacketSize(): packets are built with a size the send path (PacketBodySize) does not reason with"
+							}
+						}
+					}
+					r.Check(why == "", "R01.9", key, st.Pos(), "NewPacketQueue(conn.PacketSize)", why)
+				}
+			}
+		}
+	}
+	if nTx == 0 {
+		r.Unknown("R01.9", "Channel.queueTx assigned", token.NoPos, "no assignment of Channel.queueTx found")
+	}
 }
